@@ -259,6 +259,34 @@ def r07a(ctx, rep, rule="R07a"):
                                          "the stack trace is captured %s the reset" % ("before" if ok else "AFTER"), [fn.span])
 
 
+def r07h(ctx, rep, rule="R07h"):
+    """the error exit is a collection point"""
+    facts = ctx["facts"]
+    rep.rule(rule, "a failed evaluation is a collection point (must-pass-through): every path in run_count from the Err edge of "
+             "run_one's result to the return passes a call of run_gc, after the reset of the stack pointer. The loop collects "
+             "every 8192 instructions, at a slice end and after a result; short failing evaluations reach none of these, so "
+             "without a collection on the error exit a run of failures fills the free list and Heap::alloc grows the heap "
+             "without bound.")
+    fn = need(rep, rule, facts, RUN_COUNT)
+    if fn is None:
+        return
+    ea = _err_arm(fn)
+    if ea is None:
+        rep.anchor_lost(rule, "match on run_one's result in run_count")
+        return
+    swb, tgt = ea
+    gcs = {bb for bb, t in fn.calls() if callee(t) == RUN_GC}
+    region = fn.reach_from(tgt, avoid=gcs)
+    escaping = [r for r in fn.return_blocks() if r in region]
+    key = "%s|run_count|err-exit-collects" % rule
+    if escaping:
+        rep.fail(rule, key, "run_count returns from the error arm without calling run_gc: failing evaluations never reach a "
+                 "collection point, their garbage accumulates until the free list is empty and the heap grows instead of being "
+                 "collected — repeated failures accumulate memory", [fn.blocks[tgt]["term"]["loc"]])
+    else:
+        rep.ok(rule, key, "every path from the error arm to the return passes run_gc", [fn.span])
+
+
 def r07b(ctx, rep, rule="R07b"):
     facts = ctx["facts"]
     rep.rule(rule, "compile failures do not move the machine: in Vm::prepare_eval every write of the instruction "
